@@ -1,4 +1,5 @@
 import BufModel.Filter
+import BufProofs.Lemmas.FilterClosureLemmas
 import Driver.Util
 /-
   Line protocol for C12 (type filtering).  One case per line, TAB-separated:
@@ -124,7 +125,9 @@ def dedupSorted (l : List String) : List String :=
   (l.toArray.qsort (· < ·)).toList.eraseDups
 
 def answer (cfg : Cfg) (img : Image) (o : Opts) : String :=
-  let fuel := defaultFuel img
+  -- defaultFuel ignores option lists (finding of the proof agent: a 300-value enum exhausts it);
+  -- the driver therefore runs with the proved-sufficient bound as well
+  let fuel := max (defaultFuel img) (fuelBound img)
   match filterWith cfg img o fuel with
   | .ok out => "ok\t" ++ (if linksB out then "1" else "0") ++ "\t" ++ par (out.map rFile)
   | .error e =>
